@@ -47,6 +47,11 @@ CHECKS = {
              "split, splitlines, strip, slicing, int(s,0), str(int)) are modelled by hand and compared with the interpreter on every run; CPython's "
              "4300-digit limit for decimal int<->str conversion is outside the model. Position-mark names, constant names and language names are "
              "taken to be plain names/identifiers. Exactness of the guards (outside => fails) is empirical, not a theorem."),
+    "C07": dict(
+        level="proof", design="4/C07",
+        technique="Lean 4 theorems about a hand-written model of the SsbScript decompiler (OpsLabelJumpToResolver, process_op_for_jump, SsbScriptSsbDecompiler) and compiler (SsbScriptCompilerListener parse events, OpsLabelJumpToRemover) on a statement AST + exact model-vs-implementation correspondence (text of the real decompiler parsed with the repo's own parser, real compiler output) + property oracle on real objects",
+        text="Kernel-checked theorem ssbscript_roundtrip for all routine sets in the class WF' (any number of routines of the five kinds incl. empty ones, arbitrary opcode names and parameters, unreachable ops, jumps between routines; strictly increasing offsets; every jump-table op carries its int target, an op offset of the set, as last parameter at the table index; headers expressible in SsbScript): decompile then compile succeeds and returns the same routine count, kinds, targets, coroutine names, the same ops in order with equal parameters, each jump parameter denoting the op at the position of the original target (order-preserving bijective renumbering). Supporting theorems: the compiler is independent of label ids (compile_by_name, all ASTs), labels bind to the next op also across routine boundaries, alias routines, jump marker not last is dropped; counterexample theorems show each WF' clause is needed. The model is compared with the real code on every run.",
+        note=COMMON_NOTE + "The model starts at the statement AST: the text layer is covered differentially (the real decompiler's text is parsed by the repository's own SsbScript parser into the AST and compared with the model's AST; harness/astdump_ssbs.py is trusted glue, cross-checked by astdump(print(ast)) == ast) and the printing/lexing of parameter literals belongs to C04. Known finding opcode_name_is_keyword: opcode names that are SsbScript keywords do not survive (ParseError)."),
     "C14": dict(
         level="proof", design="4/C14",
         technique="Lean 4 theorems about a hand-written model of source_map.py (serialize/deserialize/rewrite_offsets) + exact model-vs-implementation correspondence + property oracle on real objects",
